@@ -125,7 +125,7 @@ func TestVerifEngineChain(t *testing.T) {
 			continue
 		}
 		s := s
-		vrt.Explore(vrt.Options{Name: fmt.Sprintf("guards/engine-chain/handler=%v", s.steps), Bound: bound, Prune: true, Budget: vrt.FairBudget(1)}, func(r *vrt.Run) {
+		vrt.Explore(vrt.Options{Name: fmt.Sprintf("guards/engine-chain/handler=%v", s.steps), Bound: bound, AutoAdvance: true, Prune: true, Budget: vrt.FairBudget(1)}, func(r *vrt.Run) {
 			o := &eObs{}
 			h := buildEngine(r, 10, o, s.steps)
 			rec := &eRec{hdr: http.Header{}}
@@ -196,7 +196,7 @@ func TestVerifEngineChain(t *testing.T) {
 		})
 	}
 	if vrt.Shard(311) {
-		vrt.Explore(vrt.Options{Name: "guards/engine-chain/maxconns=1/2requests", Bound: bound, Prune: true, Budget: vrt.FairBudget(1)}, func(r *vrt.Run) {
+		vrt.Explore(vrt.Options{Name: "guards/engine-chain/maxconns=1/2requests", Bound: bound, AutoAdvance: true, Prune: true, Budget: vrt.FairBudget(1)}, func(r *vrt.Run) {
 			o := &eObs{}
 			h := buildEngine(r, 1, o, []string{"Y", "Ba"})
 			var wg sync.WaitGroup
